@@ -395,9 +395,12 @@ fn message_code(m: &str) -> String {
     format!("UNKNOWN:{}", hex(m.as_bytes()))
 }
 
+/// bytes that reached the real standard output / standard error so far (both are files set up by the driver)
 fn direct_len() -> u64 {
     let _ = std::io::stdout().flush();
+    let _ = std::io::stderr().flush();
     std::fs::metadata("/proc/self/fd/1").map(|m| m.len()).unwrap_or(0)
+        + std::fs::metadata("/proc/self/fd/2").map(|m| m.len()).unwrap_or(0)
 }
 
 fn do_run(src: &str, modules: &[(String, Vec<u8>)], budget: u64, depth: u64, case_no: usize) -> String {
